@@ -70,6 +70,10 @@ def history_st(draw, max_steps=40, max_segments=3, max_n=7, min_workers=1, kills
                "policy_seed": draw(st.integers(0, 1000))}
         if spec["zeroswap"] is not None:
             seg["zeroswap"] = spec["zeroswap"]
+        if k > 0 and min_extend is None and draw(st.sampled_from([False, False, False, True])):
+            # the restart runs on another allocation: any worker count the configuration allows
+            seg["workers"] = draw(st.integers(1, spec["n"] - 1))
+            W = seg["workers"]
         last = k == nseg - 1
         if kills and not last and draw(st.booleans()):
             kill = draw(st.integers(1, add))
@@ -122,7 +126,7 @@ def run_case(case, flags, timeout=240.0):
             if len(summ["trace"]) < 30:
                 summ["trace"] += [list(map(str, t)) for t in r.get("trace", [])[:12]]
             prev = r
-        summ["final"] = final_accounting(d, spec, h["results"], flags, viol)
+        summ["final"] = final_accounting(d, dict(spec, _workers_changed=any("workers" in sg for sg in segs)), h["results"], flags, viol)
     finally:
         simdrv.isolate.rmscratch(d)
     return viol, summ
@@ -158,7 +162,7 @@ def final_accounting(d, spec, results, flags, viol):
         for c in range(n):
             if abs(tot[c] - ic[c]) > 1e-9 * max(1, ic[c]):
                 viol.append(("C04:rows-plus-live-weights-differ-from-idle-count", f"column {c}: rows+live={tot[c]!r} idle steps={ic[c]} (cstep {cfg['current']['cstep']})"))
-        if spec["workers"] == 1 and any(x != cfg["current"]["cstep"] for x in ic):
+        if spec["workers"] == 1 and not spec.get("_workers_changed") and any(x != cfg["current"]["cstep"] for x in ic):
             viol.append(("C04:one-worker-idle-count-differs-from-cstep", f"{ic} vs cstep {cfg['current']['cstep']}"))
     return {"rows": len(rows), "idle_count": ic, "column_sums": [round(t, 9) for t in tot]}
 
